@@ -374,6 +374,8 @@ PROPS["C05"] = {
                     "in server mode deliveries happen inside the in-process reference clients; only server lifecycle and instance selection are observed",
                     "a run that does not return within 5 minutes is inconclusive, not a violation"],
     "units": [
+        # client mode over the embedded corpus: hand-over between the two in-process reference server kinds
+        {"name": "C05ClientKinds", "pkg": CC, "test": "TestVerifC05ClientKinds", "kind": "enum", "shards": {"quick": 4, "thorough": 8}, "timeout": 900},
         {"name": "C05Dispatch", "pkg": CC, "test": "TestVerifC05Dispatch", "kind": "rapid", "race": {"quick": False, "thorough": True},
          "checks": {"quick": 40, "thorough": 120}, "shards": {"quick": 4, "thorough": 16}, "timeout": {"quick": 900, "thorough": 5400}},
     ],
